@@ -21,7 +21,7 @@ class TLCError(RuntimeError):
 
 
 def _java(args: List[str], env: Dict[str, str], timeout: int, cwd: str = SPEC, xmx: str = "8g") -> Tuple[int, str]:
-    cmd = ["java", "-XX:+UseParallelGC", f"-Xmx{xmx}", "-cp", JAR, "tlc2.TLC"] + args
+    cmd = ["java", "-XX:+UseParallelGC", f"-Xmx{xmx}", "-Xss256m", "-cp", JAR, "tlc2.TLC"] + args
     e = dict(os.environ)
     e.update(env)
     try:
